@@ -1,1 +1,57 @@
-// harnesses for module m_prune (included into /repo under cfg(kani))
+// C03: -prune marks exactly directories (per the selected record) and is always true.
+use super::*;
+use crate::find::matchers::entry::verif_kani::*;
+use crate::find::matchers::Follow;
+
+/// Lets the walk-loop harness in find/mod.rs run the real PruneMatcher (the module is private to matchers).
+pub struct PruneProbe(PruneMatcher);
+impl PruneProbe {
+    pub fn new() -> Self { Self(PruneMatcher::new()) }
+    pub fn run(&self, e: &WalkEntry, io: &mut MatcherIO) -> bool { self.0.matches(e, io) }
+}
+
+// @harness props=C03 tier=quick cost=120 flags=nomem
+// @exec PruneMatcher::matches, WalkEntry::file_type, MatcherIO::{mark_current_dir_to_be_skipped,should_skip_current_dir}
+// @sym world (all file types), follow P/H/L, depth 0..1
+// @bounds one path; depth <= 1
+// @assume kernel contract for stat vs lstat
+/// -prune is always true and requests a skip exactly when the entry (as the follow mode sees it) is a directory —
+/// in particular never for a symbolic link to a directory that find does not follow.
+#[kani::proof]
+#[kani::unwind(3)]
+#[kani::stub(alloc::fmt::format, fmt_stub)]
+#[kani::stub(std::fs::metadata, stat_stub)]
+#[kani::stub(std::fs::symlink_metadata, lstat_stub)]
+fn c03_prune_marks_only_dirs() {
+    let (lst, sst, s_ok, s_err) = any_world(&[libc::ENOENT, libc::ELOOP]);
+    let follow = any_follow();
+    let depth: usize = kani::any();
+    kani::assume(depth <= 1);
+    let entry = WalkEntry::new("a", depth, follow);
+    let deps = Deps::new();
+    let mut io = MatcherIO::new(&deps);
+    assert!(PruneMatcher::new().matches(&entry, &mut io));
+    let is_dir = match selected_record(lst, sst, s_ok, s_err, follow.follow_at_depth(depth)) {
+        Some(r) => is_type(r.st_mode, libc::S_IFDIR),
+        None => false,
+    };
+    assert!(io.should_skip_current_dir() == is_dir);
+    assert!(!io.should_quit() && io.exit_code() == 0);
+    kani::cover!(is_dir && follow == Follow::Always && is_type(lst.st_mode, libc::S_IFLNK));
+    kani::cover!(!is_dir && follow == Follow::Never && is_type(lst.st_mode, libc::S_IFLNK) && s_ok && is_type(sst.st_mode, libc::S_IFDIR));
+    std::mem::forget(entry);
+}
+#[kani::proof]
+#[kani::unwind(3)]
+#[kani::stub(alloc::fmt::format, fmt_stub)]
+#[kani::stub(std::fs::metadata, stat_stub)]
+#[kani::stub(std::fs::symlink_metadata, lstat_stub)]
+fn c03_prune_marks_only_dirs_canary() {
+    let (lst, _sst, _s_ok, _s_err) = any_world(&[libc::ENOENT]);
+    let entry = WalkEntry::new("a", 0, any_follow());
+    let deps = Deps::new();
+    let mut io = MatcherIO::new(&deps);
+    PruneMatcher::new().matches(&entry, &mut io);
+    assert!(io.should_skip_current_dir() == is_type(lst.st_mode, libc::S_IFDIR)); // always lstat: must FAIL
+    std::mem::forget(entry);
+}
